@@ -241,5 +241,17 @@ class IterationExec:
                 else:
                     state[name] = self.sub(v, state)
                 return state
+            # a, b = x, y  (no later element reads an earlier target): one assignment per element
+            if len(tgts) == 1 and isinstance(tgts[0], ast.Tuple) and isinstance(s.value, ast.Tuple) and len(tgts[0].elts) == len(s.value.elts) \
+                    and all(isinstance(t, ast.Name) for t in tgts[0].elts):
+                names = [t.id for t in tgts[0].elts]
+                vals = [self.sub(v, state) for v in s.value.elts]   # all evaluated before any target is bound
+                for nm, v0, v in zip(names, s.value.elts, vals):
+                    if isinstance(v0, ast.List) or (isinstance(v0, ast.Call) and astx.u(v0.func) == "list") or nm in self.lists:
+                        state[nm] = self.as_list(v0, {k: w for k, w in state.items() if k not in names})
+                        self.lists.add(nm)
+                    else:
+                        state[nm] = v
+                return state
             raise Unsupported(f"assignment `{astx.u(s)[:60]}`")
         raise Unsupported(f"statement `{astx.u(s)[:60]}`")
